@@ -1373,7 +1373,9 @@ fn init(c: &mut Cur) -> World {
             },
             &[],
             "factory",
-            None,
+            // the factory has a chain-level (wasm) admin who is NOT its owner: the last user.  The contracts never ask who
+            // that is, so nothing depends on it - unless a change makes them (C14-agent18)
+            if nu >= 2 { Some(addr_s(1000 + nu - 1)) } else { None },
         )
         .unwrap();
     assert_eq!(f.as_str(), "contract0");
